@@ -5251,15 +5251,16 @@ func (stmt *ReturningStmt) execAt(ctx context.Context, tx *SQLTx, params map[str
 }
 
 func (stmt *ReturningStmt) Resolve(ctx context.Context, tx *SQLTx, params map[string]interface{}, _ *ScanSpecs) (RowReader, error) {
-	// Execute the DML. When called during the InferParameters pre-pass
-	// (the pgsql adapter calls SQLQueryPrepared with nil params to
-	// discover result-column shape before binding), execAt may fail
-	// with "missing parameter" on every Param-bound INSERT/UPDATE.
-	// In that case fall back to an empty row reader with the right
-	// column descriptors so the caller can describe the result shape.
-	_, err := stmt.dml.execAt(ctx, tx, params)
-	if err != nil {
-		if len(params) == 0 && errors.Is(err, ErrMissingParameter) {
+	// When called during the InferParameters pre-pass (the pgsql adapter
+	// calls SQLQueryPrepared with nil params to discover result-column
+	// shape before binding) a statement with parameters can not be
+	// executed: nothing of it is, an empty row reader with the right
+	// column descriptors lets the caller describe the result shape.
+	// (executing it until the first unbound parameter is met would leave
+	// the rows written so far in the transaction, reported as a success)
+	if len(params) == 0 {
+		inferred := make(map[string]SQLValueType)
+		if ierr := stmt.dml.inferParameters(ctx, tx, inferred); ierr == nil && len(inferred) > 0 {
 			table, tErr := stmt.resolveTable(tx)
 			if tErr != nil {
 				return nil, tErr
@@ -5267,6 +5268,10 @@ func (stmt *ReturningStmt) Resolve(ctx context.Context, tx *SQLTx, params map[st
 			cols := stmt.buildReturnCols(table)
 			return NewValuesRowReader(tx, nil, cols, true, stmt.tableName, nil)
 		}
+	}
+
+	_, err := stmt.dml.execAt(ctx, tx, params)
+	if err != nil {
 		return nil, err
 	}
 
